@@ -58,9 +58,19 @@ def fixed_programs():
     out.append({"cpu": "dspic", "shape": "plain", "items": [("org", N(0x100)), ("ins", "goto 0x123456"), ("ins", "call 0x7654")]})
     out.append({"cpu": "86000", "shape": "plain", "items": [("org", N(0x10)), ("ins", "mov #0x63,@r3"), ("db", "db", [N(200), N(201)])]})
     out.append({"cpu": "6502", "shape": "repeat", "items": [("org", N(0x200)), ("rep", 3, [("ins", "lda #1"), ("ins", "sta $4400")])]})
-    out.append({"cpu": "riscv", "shape": "top", "fit_top": 0, "items": [("org", N(0xfffffff0)), ("ins", "addi a0, a0, 1"),
+    # one witness per known finding (the KNOWN-FINDING lines do not depend on the seed)
+    out.append({"cpu": "msp430", "shape": "include", "items": [("org", N(0x200)), ("inc", "a.inc", [("lab", "l1"), ("ins", "mov.w #1234, r5"),
+                ("db", "db", [N(1), N(2)]), ("ins", "add.w r5, r6")]), ("ins", "nop")]})
+    out.append({"cpu": "pic14", "shape": "odd-data", "items": [("org", N(0x100)), ("ins", "sleep"), ("db", "db", [N(1), N(2), N(3)]),
+                ("ins", "retfie"), ("ins", "sleep")]})
+    out.append({"cpu": "msp430", "shape": "overwrite", "items": [("org", N(0x100)), ("ins", "mov.w #0x1234, r5"), ("org", N(0x100)),
+                ("db", "db", [N(0xaa), N(0xbb)])]})
+    out.append({"cpu": "powerpc", "shape": "repeat", "items": [("org", N(0x1000)), ("rep", 2, [("ins", "nor. r4, r21, r24"), ("resb", N(2)),
+                ("ins", "nor. r4, r21, r24")]), ("db", "db", [N(0x56)])]})
+    out.append({"cpu": "68000", "shape": "plain", "items": [("org", N(0x1000)), ("ins", "subi.w #4, (a3)"), ("ins", "andi.l #5, (50,a3)")]})
+    out.append({"cpu": "riscv", "shape": "top", "fit_top": 0, "items": [("org", N(0x1000)), ("ins", "addi a0, a0, 1"),
                 ("db", "db", [N(1), N(2), N(3), N(4)]), ("ins", "addi a1, a1, 2"), ("db", "db", [N(1), N(2), N(3), N(4)])]})
-    out.append({"cpu": "riscv", "shape": "top", "fit_top": 0, "items": [("org", N(0xfffffff4)), ("ins", "addi a0, a0, 1"),
+    out.append({"cpu": "riscv", "shape": "top", "fit_top": 0, "items": [("org", N(0x1000)), ("ins", "addi a0, a0, 1"),
                 ("db", "db", [N(1), N(2), N(3), N(4)]), ("ins", "addi a1, a1, 2")]})
     return out
 
@@ -97,8 +107,10 @@ def fit_top(ctx, progs):
             continue
         bpa = pr["bpa"]
         size = max(pr["image"]) + 1 - p["items"][0][1][1] * bpa
-        org = (0x100000000 - p["fit_top"] - size) // bpa
+        size = (size + bpa - 1) // bpa * bpa
+        org = (0x100000000 - p["fit_top"] // bpa * bpa - size) // bpa
         p["items"][0] = ("org", GL.N(org))
+        p["fitted"] = True
 
 
 def run_programs(ctx, progs):
@@ -106,6 +118,9 @@ def run_programs(ctx, progs):
     exe = ctx.repo["naken_asm"]
     tmp = ctx.tmpdir()
     fit_top(ctx, progs)
+    for p in progs:
+        if p.get("shape") == "top" and not p.get("fitted"):
+            p["shape"] = "plain"              # could not be measured (rejected): stays where it is
     rendered = [GL.render(p) for p in progs]
 
     def run(i):
